@@ -476,6 +476,11 @@ def run(ctx):
             # from one wrap earlier are still inside the 30-entry ping window
             plist[-1].update(many_down=True, ndown=rng.randint(12, 22), nticks=rng.randint(180, 260), frag=50,
                              lazy=rng.random() < 0.8, ndup=rng.randint(50, 90), nup=rng.randint(0, 2))
+        if i % 16 == 11:
+            # a client that asks rarely (iodine -I 6..9: one query every 6-9 s): in lazy mode each query waits at the server for
+            # seconds; many one-fragment upstream packets, and copies of data queries that are several packets old
+            plist[-1].update(many_small_up=True, lazy=True, step=rng.choice([6000000, 7000000, 9000000]), nticks=rng.randint(36, 48),
+                             nup=rng.randint(24, 34), ndup=rng.randint(40, 70), up="Base32" if rng.random() < 0.7 else plist[-1]["up"], ndown=rng.randint(0, 3))
         if i % 8 == 2:
             # a slow path and a relay that repeats itself many times ("any number of times"): downloads of many fragments with
             # two or three queries under way, 3-9 copies per re-delivery
